@@ -1,4 +1,3 @@
-import functools as ft
 import inspect
 import json
 from typing import Any, Callable, Dict, Iterable, List, Optional
@@ -46,11 +45,7 @@ class PydanticValidator(base.BaseValidator):
         """
 
         signature = self.signature(method, tuple(exclude))
-        try:
-            schema = self.build_validation_schema(signature)
-        except TypeError:
-            # a signature with an unhashable default value (e.g. a list) can not be a cache key: build the schema uncached
-            schema = self.build_validation_schema.__wrapped__(self, signature)
+        schema = self.build_validation_schema(signature)
 
         params_model = pydantic.create_model(method.__name__, **schema, __config__=self._model_config)
 
@@ -63,7 +58,6 @@ class PydanticValidator(base.BaseValidator):
 
         return {attr: getattr(obj, attr) for attr in obj.model_fields} if self._coerce else bound_params.arguments
 
-    @ft.lru_cache(maxsize=None)
     def build_validation_schema(self, signature: inspect.Signature) -> Dict[str, Any]:
         """
         Builds pydantic model based validation schema from method signature.
